@@ -59,8 +59,13 @@ def _is_task_step(h):
     return asyncio.isfuture(getattr(h._callback, "__self__", None))
 
 
+class BodyError(Exception):
+    """raised by the body of an admitted entry (the admission still counts against the rate)"""
+
+
 class Impl:
-    def __init__(self, count, window, mod, controlled):
+    def __init__(self, count, window, mod, controlled, failing=()):
+        self.failing = set(failing)
         self.loop = TLoop() if controlled else VLoop()
         self.controlled = controlled
         CLOCK.loop = self.loop
@@ -76,6 +81,8 @@ class Impl:
     async def body(self, t):
         async with self.lim:
             self.adm[t] = self.now()
+            if t in self.failing:
+                raise BodyError(t)
 
     def enter(self, t):
         self.tasks[t] = self.loop.create_task(self.body(t), name=t)
@@ -144,7 +151,9 @@ class Impl:
             if t not in self.tasks:
                 pc[t] = "idle"
             elif self.tasks[t].done():
-                self.tasks[t].result()
+                exc = self.tasks[t].exception()
+                if exc is not None and not (isinstance(exc, BodyError) and t in self.failing):
+                    raise exc
                 pc[t] = "in"
             elif t in rq:
                 pc[t] = "checking"
@@ -239,7 +248,14 @@ def _run(ctx, mod):
 
         # ---- (2) B1: every edge of the graph on the real class --------------------------------------------------
         g = tlc.parse_dot(wd / f"g{n}.dot")
-        stats, mism = walk.replay_graph(g, lambda: Impl(count, window, mod, controlled=True),
+        nwalk = [0]
+
+        def fresh(count=count, window=window, tasks=tasks, nwalk=nwalk):
+            # every other walk, the bodies of the even-numbered entries raise after admission (an admission counts whatever the body does)
+            nwalk[0] += 1
+            return Impl(count, window, mod, controlled=True, failing=tasks[1::2] if nwalk[0] % 2 == 0 else ())
+
+        stats, mism = walk.replay_graph(g, fresh,
                                         lambda impl, name, args, src, dst: impl.apply(name, *args),
                                         lambda impl: impl.project(tasks), view=view, rng=random.Random(ctx.seed + n),
                                         max_mismatches=10)
@@ -268,7 +284,7 @@ def _run(ctx, mod):
         tasks = _names(nt)
         lines = []
         for _k in range(ntr):
-            impl = Impl(count, window, mod, controlled=False)
+            impl = Impl(count, window, mod, controlled=False, failing=[t for t in tasks if rng.random() < 0.3])
             ev = []
             p_enter = rng.choice([0.3, 1.0, 3.0])
             for _ in range(12 * nt + 3 * maxtime):
